@@ -333,7 +333,7 @@ def main():
     digest = 0xcbf29ce484222325
     stats = {"scenarios": len(cases), "runs": 0, "faults_planned": 0, "faults_fired": {}, "fired_runs": 0, "distinct_histories": set(),
              "drivers": {}, "lengths": set(), "raised_outcomes": 0, "max_invocations": 0}
-    samples, violation = [], None
+    samples, violations = [], {}
     for ci, case in enumerate(cases):
         r0, p0 = invoke(case, {"kind": "none"})
         r0b, _ = invoke(case, {"kind": "none"})
@@ -341,8 +341,8 @@ def main():
         stats["drivers"][case["driver"]] = stats["drivers"].get(case["driver"], 0) + 1
         stats["lengths"].add(len(case["x"]))
         if r0 != r0b:
-            violation = (ci, case, {"kind": "none"}, ("F4_nondeterministic", f"two fault-free runs differ: {str(r0)[:100]} vs {str(r0b)[:100]}"), r0, r0b, p0)
-            break
+            violations.setdefault(f"F4_nondeterministic:{case['driver']}", (ci, case, {"kind": "none"}, ("F4_nondeterministic", f"two fault-free runs differ: {str(r0)[:100]} vs {str(r0b)[:100]}"), r0, r0b, p0))
+            continue
         for plan in plans[1:]:
             out, pr = invoke(case, plan)
             stats["runs"] += 1
@@ -364,10 +364,8 @@ def main():
                 samples.append({"driver": case["driver"], "n": len(case["x"]), "fn": case["fn"], "plan": plan, "invocation_log": pr.log, "outcome": out, "fault_free": r0})
             j = judge(case, plan, r0, out, pr)
             if j is not None:
-                violation = (ci, case, plan, j, r0, out, pr)
-                break
-        if violation:
-            break
+                # first violating run per finding key (what fails: class of violation and driver)
+                violations.setdefault(f"{j[0]}:{case['driver']}", (ci, case, plan, j, r0, out, pr))
 
     result = {
         "seed": a.seed, "tier": a.tier, "digest": f"{digest:016x}", "wall_s": None,
@@ -375,15 +373,17 @@ def main():
                   "distinct_histories_with_fault_fired": len(stats["distinct_histories"]), "lengths": sorted(stats["lengths"]), "plans_per_scenario": len(plans) - 1},
         "samples": samples, "violation": None,
     }
-    if violation:
-        ci, case, plan, j, r0, out, pr = violation
+    out_v = []
+    for key, (ci, case, plan, j, r0, out, pr) in sorted(violations.items(), key=lambda kv: kv[1][0]):
         mcase, steps = (case, 0) if j[0] == "F4_nondeterministic" else minimise(case, plan, j[0])
         r0m, _ = invoke(mcase, {"kind": "none"})
         outm, prm = invoke(mcase, plan)
         jm = judge(mcase, plan, r0m, outm, prm) or j
-        result["violation"] = {"class": j[0], "message": jm[1], "scenario_index": ci, "case": mcase, "plan": plan, "minimised_from": case if mcase != case else None,
-                               "minimise_steps": steps, "fault_free": r0m, "outcome": outm if isinstance(outm, dict) else None,
-                               "invocation_log": prm.log, "finding_key": f"{j[0]}:{case['driver']}"}
+        out_v.append({"class": j[0], "message": jm[1], "scenario_index": ci, "case": mcase, "plan": plan, "minimised_from": case if mcase != case else None,
+                      "minimise_steps": steps, "fault_free": r0m, "outcome": outm if isinstance(outm, dict) else None,
+                      "invocation_log": prm.log, "finding_key": key})
+    result["violations"] = out_v
+    result["violation"] = out_v[0] if out_v else None
     result["wall_s"] = round(time.time() - t0, 3)
     json.dump(result, open(a.out, "w"), indent=1, sort_keys=True)
 
